@@ -393,6 +393,68 @@ func c12CheckLookalike(c c12DecCase) engine.Result {
 	return res
 }
 
+// ---- scenario "grouping-ids": every id value next to every other ------------------------------------
+
+type c12GroupCase struct {
+	Tag   byte `json:"tag"`
+	First int  `json:"first_id"`
+}
+
+// c12CheckGroup: CableLabs chains [first, b, c, 0x05] for ALL 7-bit b and c (and [first, b], [first])
+// with the time and SAP fields behind the chain; Comcast: the single grouping byte `first` (8 bits).
+func c12CheckGroup(c c12GroupCase) engine.Result {
+	var res engine.Result
+	rec := &c12Rec{res: &res}
+	m := ref.EBP{Tag: c.Tag, Seconds: 0xD6EE7BD8, Fraction: 0x8DC714FC, SAP: 0x60}
+	m.SetFlagsByte(0x38) // SAP, grouping, time
+	var buf, inbuf []byte
+	try := func(chain []byte) bool {
+		m.Grouping = chain
+		buf = ref.AppendEBP(buf, &m)
+		inbuf = append(inbuf[:0], buf...)
+		res.Evals++
+		res.Nontrivial++
+		var got ebp.EncoderBoundaryPoint
+		var err error
+		if engine.Guard(&res, "decode", func() { got, err = ebp.ReadEncoderBoundaryPoint(inbuf) }) {
+			return false
+		}
+		if err != nil || got == nil || reflect.ValueOf(got).IsNil() {
+			rec.failf("decode|"+c12Flavour(c.Tag)+",grouping-ids|error-on-well-formed", "grouping ids % x: err=%v", chain, err)
+			return len(res.Fail) < 4
+		}
+		if engine.Guard(&res, "decode-getters-reencode", func() {
+			c12CheckDecoded(rec, "decode", c12Flavour(c.Tag)+",grouping-ids", "", &m, got, inbuf)
+		}) {
+			return false
+		}
+		return len(res.Fail) < 4
+	}
+	if c.Tag == ref.EBPTagComcast {
+		try([]byte{byte(c.First)})
+		res.Outcome(c.First & 0xF0)
+		return res
+	}
+	chain := []byte{byte(c.First), 0, 0, 0x05}
+	if !try(chain[:1]) {
+		return res
+	}
+	for b := 0; b < 128; b++ {
+		chain[1] = byte(b)
+		if !try(chain[:2]) {
+			return res
+		}
+		for d := 0; d < 128; d++ {
+			chain[2] = byte(d)
+			if !try(chain[:4]) {
+				return res
+			}
+		}
+	}
+	res.Outcome(c.First & 0x70)
+	return res
+}
+
 func c12Head2(n int) int {
 	if n > 24 {
 		return 24
@@ -902,6 +964,11 @@ func c12BoundaryNanos() []int64 {
 	return out
 }
 
+var (
+	c12ZoneWest = time.FixedZone("UTC-5", -5*3600)
+	c12ZoneEast = time.FixedZone("UTC+5:30", 5*3600+1800)
+)
+
 func c12CheckTime(c c12TimeCase) engine.Result {
 	var res engine.Result
 	cl := ebp.CreateCableLabsEbp()
@@ -912,8 +979,17 @@ func c12CheckTime(c c12TimeCase) engine.Result {
 	}
 	var sum uint64
 	nfail := 0
+	nth := 0
 	one := func(ns int64) {
 		t := time.Unix(c.Unix, ns).UTC()
+		// the same instant expressed in another location (a time.Time denotes an instant; every third
+		// call uses a fixed zone west or east of UTC, incl. a half-hour offset)
+		switch nth++; nth % 6 {
+		case 2:
+			t = t.In(c12ZoneWest)
+		case 5:
+			t = t.In(c12ZoneEast)
+		}
 		x.SetEBPTime(t)
 		g := x.EBPTime()
 		d := (g.Unix()-c.Unix)*1000000000 + int64(g.Nanosecond()) - ns
@@ -1069,6 +1145,19 @@ func init() {
 				},
 				Check: c12CheckLookalike, Batch: 32,
 			},
+			&engine.Enum[c12GroupCase]{
+				Name: "grouping-ids",
+				Rule: "CableLabs: every grouping chain [a, b, c, 0x05], [a, b] and [a] for ALL 7-bit ids a (case), b, c (2.1 million chains: every value next to every other, also as non-final elements) in an EBP that also carries SAP and time behind the chain; Comcast: all 256 values of the single grouping byte; oracle of decode-reencode (every getter incl. the stream-sync signal and the time, byte-identical re-encoding)",
+				Gen: func(r *engine.Run, emit func(c12GroupCase)) {
+					for a := 0; a < 128; a++ {
+						emit(c12GroupCase{ref.EBPTagCableLabs, a})
+					}
+					for a := 0; a < 256; a++ {
+						emit(c12GroupCase{ref.EBPTagComcast, a})
+					}
+				},
+				Check: c12CheckGroup, Batch: 1,
+			},
 			&engine.Enum[c12DecTimeCase]{
 				Name:  "decode-time",
 				Rule:  "both flavours x 8 boundary seconds values (both eras) x fractions: all 32-bit values with <=2 bits set and their complements, plus every 2^16-th value (thorough: every 2^10-th) in 64 blocks; EBP holding only the time is decoded and EBPTime() must be era epoch + seconds + floor-or-ceil(fraction*10^9/2^32) ns; non-trivial = fraction != 0",
@@ -1083,7 +1172,7 @@ func init() {
 			},
 			&engine.Enum[c12TimeCase]{
 				Name:  "time",
-				Rule:  "SetEBPTime(t); EBPTime() must be within 1 ns of t. Both flavours x boundary seconds (first/last 3 representable seconds 1968-01-20T03:14:08Z / 2104-02-26T09:42:23Z, 3 seconds either side of the 2036-02-07T06:28:16Z era switch, unix -1/0/1, mid-era values, every single-bit and all-but-one-bit pattern of the low 31 seconds bits in both eras) x boundary nanoseconds (0..1000, 999999000..999999999, everything within 4 of a multiple of 5^9); plus for 8 seconds (first, 2020-01-01, last of era 0, first of era 1, mid era 1, last, unix 0, 2014-04-08T13:44:56Z) every 997th nanosecond (thorough: every one of the 10^9 nanoseconds, 2*10^6 per case); non-trivial = every (second, nanosecond) pair",
+				Rule:  "SetEBPTime(t); EBPTime() must be within 1 ns of t (t given in UTC, and every third call as the same instant in a fixed zone UTC-5 / UTC+5:30). Both flavours x boundary seconds (first/last 3 representable seconds 1968-01-20T03:14:08Z / 2104-02-26T09:42:23Z, 3 seconds either side of the 2036-02-07T06:28:16Z era switch, unix -1/0/1, mid-era values, every single-bit and all-but-one-bit pattern of the low 31 seconds bits in both eras) x boundary nanoseconds (0..1000, 999999000..999999999, everything within 4 of a multiple of 5^9); plus for 8 seconds (first, 2020-01-01, last of era 0, first of era 1, mid era 1, last, unix 0, 2014-04-08T13:44:56Z) every 997th nanosecond (thorough: every one of the 10^9 nanoseconds, 2*10^6 per case); non-trivial = every (second, nanosecond) pair",
 				Gen:   c12GenTime,
 				Check: c12CheckTime, Batch: 1,
 			},
